@@ -2,7 +2,8 @@
     Only statements here; proofs are in SM/PathNormProofs.v.  [raise_if] is the condition under which
     RawFileSystem._resolve_path raises RootEscapeError, regenerated from filesys.py into Gen/Containment_gen.v. *)
 From Coq Require Import List NArith Bool.
-From SV Require Import SM.PathNorm SM.PathNormProofs SM.PathOps SM.PathOpsProofs SM.PathWalkRel Gen.Containment_gen Gen.FsOps_gen.
+From SV Require Import SM.PathNorm SM.PathNormProofs SM.PathOps SM.PathOpsProofs SM.PathWalkRel SM.PathMemo SM.PathMemoProofs
+  Gen.Containment_gen Gen.FsOps_gen.
 Import ListNotations.
 
 (** Census obligation: every file-system access of RawFileSystem goes through _resolve_path. *)
@@ -202,3 +203,62 @@ Theorem c18_walk_yield_names_the_file_found :
       unbackslash y = y ->
       segs (abspath cwd (pjoin root (unbackslash y))) = segs file.
 Proof. exact walk_yield_names_the_file_found. Qed.
+
+(** ------------------------------------------------------------------ histories over several objects; memo tables (round 3).
+    Census obligations: nothing stands between a caller and the method bodies the translators read (no decorator
+    other than classmethod/deprecated/..., no rebinding of a method, no attribute hook, no subclass override). *)
+Definition resolve_path_is_not_wrapped : bool := match resolve_path_wrappers with [] => true | _ => false end.
+Definition no_method_of_the_file_system_classes_is_wrapped : bool := match method_wrappers with [] => true | _ => false end.
+
+(** Histories.  Calls of _resolve_path on any number of RawFileSystem objects (constrained or not, same or different
+    roots) in any order, with a memo table in front of the method whose key contains the constrain flag, under EVERY
+    replacement policy that only drops entries ([fun _ => []] is today's source: no table): whatever a constrained
+    object is answered at any point of the history is inside its root. *)
+Theorem c18_history_constrained_calls_inside :
+  raise_sound raise_if = true ->
+  forall cwd evict, is_abs cwd = true -> only_drops evict ->
+  forall calls n call a,
+    nth_error calls n = Some call -> rc_con call = true ->
+    nth_error (memo_run true raise_if cwd evict [] calls) n = Some (Ok a) ->
+    inside (abspath cwd (rc_root call)) a.
+Proof. intros Hg cwd evict Hc He. exact (memo_history_inside raise_if cwd evict Hg Hc He). Qed.
+
+(** The table is transparent: for every guard, policy and history in which every call is covered by the key (key with
+    the flag, or constrained callers only) the answers are those of the unmemoised method. *)
+Theorem c18_memo_table_transparent :
+  forall with_flag g cwd evict, only_drops evict ->
+  forall calls, forallb (key_covers with_flag) calls = true ->
+    memo_run with_flag g cwd evict [] calls = map (plain g cwd) calls.
+Proof.
+  intros wf g cwd evict He calls H. exact (memo_transparent wf g cwd evict He calls [] (cache_valid_nil g cwd) H).
+Qed.
+
+(** A table shared by constrained objects only is harmless even when its key ignores the flag. *)
+Theorem c18_memo_constrained_callers_only_inside :
+  forall g cwd evict, raise_sound g = true -> is_abs cwd = true -> only_drops evict ->
+  forall calls n call a,
+    forallb rc_con calls = true -> nth_error calls n = Some call ->
+    nth_error (memo_run false g cwd evict [] calls) n = Some (Ok a) ->
+    inside (abspath cwd (rc_root call)) a.
+Proof. exact memo_constrained_only_inside. Qed.
+
+(** Replacement policies exist: no table, unbounded table, the n newest entries (lru_cache(maxsize=n) drops others). *)
+Theorem c18_replacement_policies_exist :
+  only_drops (fun _ => []) /\ only_drops (fun c => c) /\ forall n, only_drops (firstn n).
+Proof. exact (conj drop_all_only_drops (conj keep_all_only_drops firstn_only_drops)). Qed.
+
+(** Seeded c18_4 (functools.lru_cache on _resolve_path; FileSystem.__eq__/__hash__ ignore constrain_path) refuted: after an
+    unconstrained RawFileSystem('/t/root') resolved '../secret.txt', a constrained one on the same folder is answered
+    '/t/secret.txt' from the table; with the flag in the key, and without a table, it raises; alone it keeps refusing. *)
+From Coq Require Import String.
+Open Scope string_scope.
+Theorem c18_memo_key_without_flag_refuted :
+  raise_sound guard_rstrip_sep = true /\
+  memo_run false guard_rstrip_sep (s2l "/w") (fun c => c) [] fault_history
+    = [Ok (s2l "/t/secret.txt"); Ok (s2l "/t/secret.txt")] /\
+  seg_prefixb (segs (abspath (s2l "/w") (s2l "/t/root"))) (segs (s2l "/t/secret.txt")) = false /\
+  memo_run true guard_rstrip_sep (s2l "/w") (fun c => c) [] fault_history = [Ok (s2l "/t/secret.txt"); Escape] /\
+  map (plain guard_rstrip_sep (s2l "/w")) fault_history = [Ok (s2l "/t/secret.txt"); Escape] /\
+  memo_run false guard_rstrip_sep (s2l "/w") (fun c => c) [] (tl fault_history ++ tl fault_history)%list = [Escape; Escape].
+Proof. exact memo_key_without_flag_refuted. Qed.
+
